@@ -85,7 +85,7 @@ func TestVerifNetRevocation(t *testing.T) {
 	}
 	fw.close()
 	pw.close()
-	fmt.Printf("SUMMARY {\"flows\":%d,\"probes\":%d,\"dns_queries\":%d}\n", fw.n, pw.n, vnetQueries)
+	fmt.Printf("SUMMARY {\"flows\":%d,\"probes\":%d,\"dns_queries\":%d,\"dns_rebinds\":%d}\n", fw.n, pw.n, vnetQueries, vnetRebinds)
 }
 
 var _ = context.Background
